@@ -817,7 +817,7 @@ BOUNDED_IN = ['np.pad modes symmetric / reflect: halo no wider than the array (n
 ASSUMPTIONS = ['tolerance_factor fixed to the default 1e-12; the comparison tolerance is at most 1/1000 of a cell',
                'meshes without subregions in Mesh.sel (clipping of subregions: C14 / bounded tier)']
 MUTANTS = {
-    'sel_probe_point_keeps_int_dtype': {'expect': 'first kept cell', 'module': 'mesh', 'contract': 'Mesh.sel', 'config': {'ndim': 1, 'axis': 0, 'kind': 'range', 'corners': 'int'},
+    'sel_probe_point_keeps_int_dtype': {'tier': 'thorough', 'expect': 'first kept cell', 'module': 'mesh', 'contract': 'Mesh.sel', 'config': {'ndim': 1, 'axis': 0, 'kind': 'range', 'corners': 'int'},
                                         'old': """                    test_point = self.region.pmin.copy().astype(
                         np.result_type(self.region.pmin.dtype, type(point))
                     )""", 'new': """                    test_point = self.region.pmin.copy()"""},
